@@ -57,3 +57,10 @@ func (f *MakeOctets) Call(s *slip.Scope, args slip.List, depth int) slip.Object 
 	}
 	return slip.Octets(ba)
 }
+
+// octetsArg coerces an argument to octets. A nil argument is an empty
+// sequence of octets.
+func octetsArg(arg slip.Object) []byte {
+	octs, _ := slip.CoerceToOctets(arg).(slip.Octets)
+	return []byte(octs)
+}
